@@ -1114,6 +1114,11 @@ impl CanonicalizeContext {
 					let child = as_element(children[0]);
 					mathml.replace_children(child.children());
 					set_mathml_name(mathml, name(&child));
+					// if the mrow was an added one (e.g., from an mstyle with several children), that doesn't make the child an added element
+					//   (added leaves are removed again when chemistry is unmarked)
+					if mathml.attribute_value(CHANGED_ATTR) == Some(ADDED_ATTR_VALUE) {
+						mathml.remove_attribute(CHANGED_ATTR);
+					}
 					add_attrs(mathml, &child.attributes());
 					return Some(mathml);		// child has already been cleaned, so we can return
 				}
